@@ -85,10 +85,13 @@ def selftest(prop, baseline_violations):
                 status = "caught" if all(any(a == e or a.startswith(e) for a in added) for e in exp) else "MISSED"
             else:
                 status = "caught" if added else "MISSED"
-        res.append(dict(id=m["id"], status=status, added=added[:6], what=m.get("what")))
+        if status == "MISSED" and m.get("known_miss"):
+            status = "known-miss"
+        res.append(dict(id=m["id"], status=status, added=added[:6], what=m.get("what"), note=m.get("known_miss")))
     return dict(mutants=len(res), caught=sum(1 for r in res if r["status"] == "caught"),
                 silent_ok=sum(1 for r in res if r["status"] == "ok-silent"),
                 missed=[r["id"] for r in res if r["status"] == "MISSED"],
+                known_misses=[r["id"] for r in res if r["status"] == "known-miss"],
                 false_alarms=[r["id"] for r in res if r["status"] == "FALSE-ALARM"],
                 skipped=[r["id"] for r in res if r["status"] == "skipped"], results=res)
 
